@@ -34,3 +34,16 @@ impl Variables {
         self.0.contains_key(name)
     }
 }
+
+#[cfg(feature = "verif-hooks")]
+impl Variables {
+    pub(crate) fn verif_entries(&self) -> Vec<(String, crate::verif::VerifValue)> {
+        let mut entries = self
+            .0
+            .iter()
+            .map(|(name, value)| (name.to_string(), value.verif_value()))
+            .collect::<Vec<_>>();
+        entries.sort();
+        entries
+    }
+}
